@@ -92,6 +92,17 @@ K05 = [
         "client.py": "from app import VERSION\nimport util\ndef use():\n    return util.slug(VERSION)\n",
         "main.py": "import client\nfrom util import slug\nimport app.core.text\nprint(client.use(), slug(1), app.core.text.{1})\n"}),
      lambda files: dict(api="move_global", path="util.py", offset=files["util.py"].index("slug"), dest="app/core/text.py")),
+    # a client imports the moved function under an alias; the source has a future statement
+    (Skeleton("v13_client_aliases_the_moved_name", {
+        "src.py": "def mover({0}):\n    return {0} + 1\ndef stays():\n    return 2\n",
+        "dest.py": "{1} = 5\n",
+        "main.py": "from src import mover as {2}, stays\nimport dest\nprint({2}(1), stays(), dest.{1})\n"}),
+     lambda files: dict(api="move_global", path="src.py", offset=files["src.py"].index("mover"), dest="dest.py")),
+    (Skeleton("v14_source_has_a_future_statement", {
+        "src.py": "from __future__ import annotations\nimport os\ndef mover({0}: Later) -> int:\n    return len(os.sep) + {0}\nclass Later:\n    pass\n",
+        "dest.py": "import sys\n{1} = 5\n",
+        "main.py": "from src import mover\nimport dest\nprint(mover(1), dest.{1})\n"}),
+     lambda files: dict(api="move_global", path="src.py", offset=files["src.py"].index("mover"), dest="dest.py")),
     # v02 without code left behind that uses the class: no import cycle (KF-C05-source-and-destination-import-each-other
     # makes every partition of v02 fail, so v02 alone cannot tell a second defect about moved classes)
     (Skeleton("v10_move_class_nothing_left_behind_uses_it", {
